@@ -21,7 +21,9 @@ exist independently of any text.  For every writer route of xtuml/persist.py
      (and for one concatenation of the three parts); the Lean build produces the same classes / identifiers /
      associations / rows; the links the Lean spec join (`linksOf`) derives from the key values of the generated metamodel
      equal the links the real in-memory model holds, and `linksOf` of the metamodel the Lean side builds from the
-     written text equals the links of the really reloaded model.
+     written text equals the links of the really reloaded model; the second-round texts (serialize_database of the
+     metamodel rebuilt from the database text, serialize_instances of the metamodel rebuilt from the INSERT statements
+     alone) equal the texts the implementation writes from its reloaded metamodels.
 """
 import hashlib
 import json
@@ -112,7 +114,7 @@ def generate(ctx):
         if ctx.quick() and i % 3 != ctx.seed % 3:
             continue
         yield _mk_case(spec, rng, 'sweep')
-    n = ctx.pick(800, 9000)
+    n = ctx.pick(650, 9000)
     for i in range(n):
         r = ctx.rng.fork('model', i)
         big = (i % 5 == 4) or (not ctx.quick() and i % 2 == 0)
@@ -183,6 +185,14 @@ def _link_pairs(m):
                 pairs.add((sidx.get(id(src), -1), tidx.get(id(tgt), -1)))
         out.append([list(p) for p in sorted(pairs)])
     return out
+
+
+def _second_text(text, writer):
+    """the text the writer produces from the really reloaded metamodel (second round)"""
+    try:
+        return writer(_reload_text([text]))
+    except Exception:
+        return Sym('error')
 
 
 def _reload_text(texts):
@@ -329,7 +339,8 @@ def run_impl(case):
     except Exception:
         links_after = Sym('none')
     obs = [[Sym('texts')] + texts, [Sym('loads')] + [_load_obs(t) for t in texts] + [_load_obs(concat)],
-           [Sym('links'), _link_pairs(m), links_after]]
+           [Sym('links'), _link_pairs(m), links_after], [Sym('round2'), _second_text(t_db, x.serialize_database),
+                                                         _second_text(t_inst, x.serialize_instances)]]
     hazard = any(isinstance(v, str) and any(h in v for h in ("'", '--', '\n', '\x00')) or
                  (isinstance(v, int) and not isinstance(v, bool) and abs(v) >= 2 ** 63)
                  for r in spec['rows'] for v in r['vals'])
